@@ -12,6 +12,8 @@ CONSTANTS
   CfiLayouts = {"none"}
   Isa = "x64"
   WithScopes = FALSE
+  Leads = {0}
+  DropFnTables = {FALSE}
   ExtraData = {TRUE, FALSE}
   Retargets = {FALSE}
   AlignOpts = {0}
